@@ -225,7 +225,7 @@ package stream
 
 //@ func (*checkpoint).Load
 //@ params s
-//@ props C02 C06 C15
+//@ props C02 C06 C15 C05
 //@ requires s != nil && s.loadLock != nil && s.metadata != nil && s.client != nil && s.config != nil && s.offsetLatestSeqNoInit != nil && s.offsetLatestSeqNoInit.config != nil
 //@ let dump = ret(metadata.Metadata.Load, 0, 0)
 //@ let exist = ret(metadata.Metadata.Load, 0, 1)
@@ -421,7 +421,7 @@ package stream
 //@ func (*stream).Open$1
 //@ freevars s
 //@ params vbID offset
-//@ props C03
+//@ props C03 C12
 //@ requires s != nil && s.observers != nil && offset != nil
 //@ ensures.observer[C03,C12] result == true && has(s.observers, vbID) && s.observers[vbID] != nil && typeis(s.observers[vbID], "*couchbase.observer") && fresh(as(s.observers[vbID], "*couchbase.observer")) && as(s.observers[vbID], "*couchbase.observer").vbID == vbID && as(s.observers[vbID], "*couchbase.observer").latestSeqNo == offset.LatestSeqNo && as(s.observers[vbID], "*couchbase.observer").config == s.config && as(s.observers[vbID], "*couchbase.observer").collectionIDs == s.collectionIDs
 //@ ensures.wiring[C03,C12] isbound(as(s.observers[vbID], "*couchbase.observer").listener, "stream.(*stream).listen") && boundrecv(as(s.observers[vbID], "*couchbase.observer").listener, "stream.(*stream).listen") == s && isbound(as(s.observers[vbID], "*couchbase.observer").endListener, "stream.(*stream).listenEnd") && boundrecv(as(s.observers[vbID], "*couchbase.observer").endListener, "stream.(*stream).listenEnd") == s
@@ -430,7 +430,7 @@ package stream
 
 //@ func (*stream).Open
 //@ params s
-//@ props C02 C04 C09 C11 C12
+//@ props C02 C04 C09 C11 C12 C03 C15 C16
 //@ requires s != nil && s.eventHandler != nil && s.vBucketDiscovery != nil && s.config != nil && s.bucketInfo != nil && s.client != nil && s.metadata != nil && s.finishStreamWithCloseCh != nil && s.finishStreamWithEndEventCh != nil && s.finishStreamWithCloseCh != s.finishStreamWithEndEventCh && logger.Log != nil
 //@ let ids = ret(stream.VBucketDiscovery.Get, 0, 0)
 //@ loop $1
@@ -438,7 +438,11 @@ package stream
 //@   modifies content(s.observers), newobjs(couchbase.observer), newobjs(couchbase.ObserverMetric)
 //@ ensures.fresh_assignment[C09,C11] calls(stream.VBucketDiscovery.Get) == 1 && arg(stream.VBucketDiscovery.Get, 0, recv) == old(s.vBucketDiscovery)
 //@ ensures.range[C04,C09] s.vbIDRange != nil && fresh(s.vbIDRange) && s.vbIDRange.Start == ids[0] && s.vbIDRange.End == ids[len(ids) - 1]
-//@ ensures.count[C12] atomicval(s.activeStreams) == len(ids)
+//@ ensures.count[C12,C16] atomicval(s.activeStreams) == len(ids)
+// the streams are counted before the first one is requested: an end that arrives while the others are still
+// being opened is then subtracted from the full count, not overwritten by it
+//@ rely "stream.(*stream).openAllStreams" presnap opening
+//@ ensures.counted_before_the_first_request[C16,C12] at(opening, atomicval(s.activeStreams)) == len(ids)
 //@ ensures.resume[C02,C11] calls(stream.Checkpoint.Load) == 1 && s.offsets == ret(stream.Checkpoint.Load, 0, 0) && s.dirtyOffsets == ret(stream.Checkpoint.Load, 0, 1) && s.anyDirtyOffset == ret(stream.Checkpoint.Load, 0, 2)
 //@ ensures.observers[C03,C12] s.observers != nil && fresh(s.observers) && forall vb uint16 :: has(s.offsets, vb) ==> has(s.observers, vb) && s.observers[vb] != nil
 //@ ensures.streams[C12,C15] dcalls("stream.(*stream).openAllStreams") == 1 && darg("stream.(*stream).openAllStreams", 0, vbIDs) == ids
